@@ -223,11 +223,16 @@ def c01(tier, seed):
             add(role, "wt", steps, {"family": "concurrent", "n": nstreams})
 
     # (ii) raw peer writes a WebTransport stream whose preamble is cut at every position
-    sid = 0
-    pre_uni = [varint(0x54) + varint(sid), varint(0x54, 4) + varint(sid, 2), varint(0x54, 8) + varint(sid, 8)]
-    pre_bi = [varint(0x41) + varint(sid), varint(0x41, 4) + varint(sid, 2), varint(0x41, 8) + varint(sid, 4)]
     payload = [0x54, 0x00, 0x41, 0x00, 0x40, 0x54, 9, 8, 7]     # looks like preambles itself
-    for role in ("server", "client"):
+    variants = [("server", 0), ("client", 0), ("server", 64)] + ([("server", 4096)] if tier == "thorough" else [])
+    for role, burn in variants:
+        sid = 4 * burn
+        if sid == 0:
+            pre_uni = [varint(0x54) + varint(sid), varint(0x54, 4) + varint(sid, 2), varint(0x54, 8) + varint(sid, 8)]
+            pre_bi = [varint(0x41) + varint(sid), varint(0x41, 4) + varint(sid, 2), varint(0x41, 8) + varint(sid, 4)]
+        else:
+            pre_uni = [varint(0x54) + varint(sid), varint(0x54, 2) + varint(sid, 8)]
+            pre_bi = [varint(0x41) + varint(sid), varint(0x41, 4) + varint(sid, 4)]
         for kind, pres in (("uni", pre_uni), ("bi", pre_bi)):
             for pre in pres:
                 wire = pre + payload
@@ -253,7 +258,8 @@ def c01(tier, seed):
                     steps += [step("app", "open_" + kind, tag="o"),
                               step("app", "write", tag="o", len=33, salt=9, chunk=5, then_finish=True)]
                     steps.append(sleep(60))
-                    add(role, "raw", steps, {"family": "raw-cut", "kind": kind, "cut": cut, "pre": pre})
+                    add(role, "raw", steps, {"family": "raw-cut", "kind": kind, "cut": cut, "pre": pre, "sid": sid},
+                        {"burn_bidi": burn} if burn else None)
     return out
 
 
@@ -357,6 +363,23 @@ def c03(tier, seed):
     if tier == "quick":
         limits = [0, 1, 5, 9, 100, 65535]
     salt = 0
+    # a session id whose quarter id needs a 2-byte (and, in thorough, a larger) varint
+    for burn in ([64] if tier == "quick" else [64, 4096]):
+        live = 4 * burn
+        for lim in ([2, 10, 100] if tier == "quick" else limits):
+            steps = [step("app", "max_dgram")]
+            for rel in (0, 1, -1):
+                salt += 1
+                steps.append(step("app", "send_dgram", rel=rel, salt=salt))
+            salt += 1
+            steps += [step("app", "send_dgram", len=3, salt=salt), step("app", "max_dgram")]
+            steps += [step("peer", "dgram", bytes=varint(live // 4) + [5, 0x40, 0x40, 5]), sleep(20),
+                      step("app", "recv_dgram", ms=800),
+                      step("peer", "dgram", bytes=varint(0) + [6, 6]),               # session 0 is foreign here
+                      step("peer", "dgram", bytes=varint(live // 4, 8) + [7]), sleep(20),
+                      step("app", "recv_dgram", ms=800), step("app", "recv_dgram", ms=150), sleep(40)]
+            add("server", "raw", steps, {"family": "big-sid", "limit": lim, "sid": live},
+                {"peer_dgram_recv": lim, "burn_bidi": burn})
     for role in ("server", "client"):
         for lim in limits:
             steps = [step("app", "max_dgram")]
@@ -525,6 +548,8 @@ def _uni_streams(live):
     S.append(("wt_live", wt_uni_preamble(live) + [1, 2, 3], "fin"))
     S.append(("wt_foreign4", wt_uni_preamble(live + 4) + [1, 2, 3], "open"))
     S.append(("wt_foreign_big", wt_uni_preamble((1 << 40) * 4) + [9], "open"))
+    if live:
+        S.append(("wt_foreign0", wt_uni_preamble(0) + [1], "open"))
     for sid in (1, 2, 3):
         S.append(("wt_badsid%d" % sid, wt_uni_preamble(live + sid) + [0], "open"))
     S.append(("trunc_type_fin", [0x40], "fin"))
@@ -601,10 +626,22 @@ def _req_conts():
 
 
 def c12(tier, seed, want=("C12", "C13", "C17", "C18")):
+    out = _c12(tier, seed, 0)
+    big = _c12(tier, seed, 64)
+    # with a burnt-in session id 256: the WebTransport-stream events of the server role
+    keep = [s for s in big if s["role"] == "server" and any(nm.startswith("wt_") for nm in s["meta"]["names"])]
+    for k, s in enumerate(keep):
+        s["scn"] = "C12-9%03d" % k
+        s["cfg"] = dict(s.get("cfg", {}), burn_bidi=64)
+        s["meta"]["sid"] = 256
+    return out + keep
+
+
+def _c12(tier, seed, burn):
     rng = random.Random(seed * 7919 + 12)
     out = []
     n = 0
-    live = 0
+    live = 4 * burn
 
     def build(role, streams, meta):
         """streams: list of (dir, name, bytes, end) in order."""
@@ -713,6 +750,12 @@ def c16(tier, seed):
                     "extra": [[k, v] for k, v in extra], "meta": {"prop": "C16", "family": "server", "decision": d},
                     "steps": list(emit_steps) if d.startswith("accept") else [sleep(80)]})
         n += 1
+    # (b') the same with session id 256 (two-byte session id / quarter id on everything emitted)
+    for i, hs in enumerate(header_sets[:3]):
+        out.append({"scn": "C16-%04d" % n, "role": "server", "peer": "raw", "decision": "accept",
+                    "cfg": {"burn_bidi": 64}, "meta": {"prop": "C16", "family": "server-sid256", "decision": "accept"},
+                    "steps": list(emit_steps)})
+        n += 1
     # (c) error paths that make the endpoint speak (codes must be registered values)
     for s in c12(tier, seed):
         names = s["meta"]["names"]
@@ -803,6 +846,10 @@ def c05(tier, seed):
         for tname, (ttag, data, positions) in targets.items():
             positions = list(positions)
             for inj in injects:
+                if role == "server" and ttag == "ctrl" and inj == "wt_bi":
+                    # a bidirectional stream opened before the request stream would take stream id 0,
+                    # i.e. become the would-be session stream itself: not a scenario about segmentation
+                    continue
                 plan.append((tname, inj, []))          # the unsegmented twin (control)
                 for p in positions:
                     plan.append((tname, inj, [p]))
